@@ -296,13 +296,18 @@ impl<T> Receiver<T> {
   ///
   /// This means either a value has been taken, or no value will ever be sent.
   pub fn is_closed(&self) -> bool {
+    // Read the sender count first: a sender stores SENT before it goes away, so
+    // a state read that follows a count of zero is final. The other order can
+    // pair a stale EMPTY with a fresh zero and report closed while the value
+    // is waiting to be taken.
+    let senders_gone = self.shared.sender_count.load(Ordering::Acquire) == 0;
     let state = self.shared.state.load(Ordering::Acquire);
 
     if state == core::STATE_TAKEN || state == core::STATE_CLOSED {
       return true;
     }
 
-    if self.shared.sender_count.load(Ordering::Acquire) == 0 {
+    if senders_gone {
       // Senders are gone. If state is EMPTY, no value will come.
       // If state is SENT, a value is still pending.
       return state == core::STATE_EMPTY || state == core::STATE_WRITING;
